@@ -31,11 +31,29 @@ THOROUGH_YEARS = sorted(set(QUICK_YEARS + list(range(1, 40)) + list(range(1000, 
                             list(range(1890, 2110)) + list(range(100, 10000, 173)) + [9998, 9000, 2400]))
 
 
-def render(f, sep, tm):
+def render(f, sep, tm, style=None):
+    """style: (joiner, fraction digits or '', zone suffix) - the written forms of "optional time suffix"."""
     s = sep.join(str(v).zfill(n) for n, v in f)
     if tm is not None:
-        s += " %02d:%02d:%02d" % tuple(tm)
+        j, frac, zone = style or (" ", "", "")
+        s += "%s%02d:%02d:%02d" % ((j,) + tuple(tm))
+        if frac:
+            s += "." + frac
+        s += zone
     return s
+
+
+JOINERS = [" ", " ", "T", "t"]
+FRACS = ["", "", "", "250", "5", "123456"]
+ZONES = ["", "", "", "Z", "z", "+02:00", "-0500", " +0200", " UTC", " -03:30"]
+
+
+def time_style(rng, sep):
+    j = rng.choice(JOINERS) if sep != " " else " "
+    z = rng.choice(ZONES)
+    if z == "z" and j == " ":
+        z = "Z"
+    return (j, rng.choice(FRACS), z)
 
 
 def fields(order, y, m, d, pad):
@@ -73,7 +91,25 @@ def make_cases(ctx, langs):
                     pad = rng.random() < 0.6
                     tm = None if rng.random() < 0.6 else [rng.randint(0, 23), rng.randint(0, 59), rng.randint(0, 59)]
                     cases.append({"clause": "explicit", "order": o, "f": fields(o, y, m, d, pad), "sep": sep, "tm": tm,
+                                  "style": time_style(rng, sep) if tm is not None and rng.random() < 0.5 else None,
                                   "kw": {"languages": ["en"]}, "explicit": True, "plo": True, "locorder": "MDY"})
+    # --- clause 1, every written form of the time suffix on padded fields: the suffix (ISO 'T', fraction, 'Z', numeric
+    # offset) never takes part in deciding the order
+    for o in ORDERS:
+        for (y, m, d) in [(2012, 11, 10), (1999, 2, 1), (2024, 12, 31), (rng.choice(years), rng.randint(1, 12), rng.randint(1, 12))]:
+            for sep in ("-", "/", "."):
+                for j in ("T", "t", " "):
+                    for z in ("", "Z", "+02:00", "-0500", ".250Z", ".5", ".123456+05:30"):
+                        if ctx.quick() and sep != "-" and rng.random() < 0.7:
+                            continue
+                        frac, zone = (z[1:].rstrip("Z+05:30") if z.startswith(".") else ""), z
+                        if z.startswith("."):
+                            frac = "".join(ch for ch in z[1:].split("Z")[0].split("+")[0] if ch.isdigit())
+                            zone = z[1 + len(frac):]
+                        cases.append({"clause": "explicit", "order": o, "f": fields(o, y, m, d, True), "sep": sep,
+                                      "tm": [rng.randint(0, 23), rng.randint(0, 59), rng.randint(0, 59)], "style": (j, frac, zone),
+                                      "kw": rng.choice([{"languages": ["en"]}, {}, {"locales": ["en-GB"]}]), "explicit": True, "plo": rng.random() < 0.7,
+                                      "locorder": "MDY"})
     # --- clause 1 crossed with every language and locale (a locale must never override the caller's order)
     probe_dates = [(2015, 3, 4), (1999, 12, 11), (2024, 2, 29), (31, 10, 9)]
     for lang, ent in sorted(langs.items()):
@@ -117,7 +153,7 @@ def make_cases(ctx, langs):
             st["DATE_ORDER"] = c["order"]
         if not c["plo"]:
             st["PREFER_LOCALE_DATE_ORDER"] = False
-        c["s"] = render(c["f"], c["sep"], c["tm"])
+        c["s"] = render(c["f"], c["sep"], c["tm"], c.get("style"))
         # a weekday name next to the numeric date (true or not for that date) is decoration: the order still decides
         if c["clause"] == "explicit" and rng.random() < 0.15:
             wd = rng.choice(["Mon", "Tue", "Wed", "Thu", "Fri", "Sat", "Sun", "Monday", "Tuesday", "Wednesday", "Thursday", "Friday", "Saturday", "Sunday"])
@@ -165,7 +201,8 @@ def run(ctx):
             continue
         records.append({"kind": "c07", "tid": i, "explicit": c["explicit"], "given": c["order"] or "MDY",
                         "plo": c["plo"], "locorder": c["locorder"], "f": c["f"], "sep": c["sep"],
-                        "tm": c["tm"] or [0, 0, 0], "out": r["out"], "period": r["period"], "exc": r["exc"]})
+                        "tm": c["tm"] or [0, 0, 0],
+                        "us": int((c["style"][1] + "000000")[:6]) if c.get("style") and c["style"][1] else 0, "out": r["out"], "period": r["period"], "exc": r["exc"]})
         ar = absfam.abs_records(i, r)
         nabs += len(ar)
         records.extend(ar)
